@@ -126,7 +126,8 @@ func (r RouterJSR311) detectRoute(routes []Route, httpRequest *http.Request) (*R
 		if trace {
 			traceLogger.Printf("no Route found (from %d) that matches HTTP Content-Type: %s\n", len(previous), contentType)
 		}
-		if httpRequest.ContentLength > 0 {
+		// a body of undeclared length (chunked transfer coding, ContentLength -1) is a body too
+		if httpRequest.ContentLength != 0 {
 			return nil, NewError(http.StatusUnsupportedMediaType, "415: Unsupported Media Type")
 		}
 	}
@@ -152,10 +153,10 @@ func (r RouterJSR311) detectRoute(routes []Route, httpRequest *http.Request) (*R
 			available = append(available, candidate.Produces...)
 		}
 		// if POST,PUT,PATCH without body
-		method, length := httpRequest.Method, httpRequest.Header.Get("Content-Length")
+		method := httpRequest.Method
 		if (method == http.MethodPost ||
 			method == http.MethodPut ||
-			method == http.MethodPatch) && (length == "" || length == "0") {
+			method == http.MethodPatch) && httpRequest.ContentLength == 0 {
 			return nil, NewError(
 				http.StatusUnsupportedMediaType,
 				fmt.Sprintf("415: Unsupported Media Type\n\nAvailable representations: %s", strings.Join(available, ", ")),
